@@ -390,6 +390,17 @@ def prove(ctx, pid=None, extra_targets=()):
         info["error"] = first_error(pr["log"])
         info["lemma"] = "Properties/%s.v" % pid
         return False, info
+    if ctx.thorough() and os.environ.get("VERIF_NO_COQCHK") != "1":
+        # independent re-check of the compiled theorems and everything they depend on
+        with Lock("coq.lock"):
+            rc, out = sh(["coqchk", "-silent", "-o", "-Q", COQ, "Sky", "Sky.Properties.%s" % pid], cwd=COQ, timeout=3000)
+        m = re.search(r"\* Axioms:\s*(.*?)\n\s*\n", out, re.S)
+        ctx.coverage["coqchk"] = {"ok": rc == 0, "axioms": (m.group(1).strip() if m else out[-400:])}
+        ctx.coverage["trusted_base"].append("coqchk -o re-checked Sky.Properties.%s and its dependencies: rc=%d, axioms: %s" % (pid, rc, (m.group(1).strip() if m else "?")))
+        if rc != 0:
+            info["error"] = "coqchk failed: " + out[-1500:]
+            info["lemma"] = "coqchk Sky.Properties.%s" % pid
+            return False, info
     return True, info
 
 
